@@ -654,3 +654,46 @@ def acc6(cfg):
             res.find(None, None, 'two node classes of %s count into the same slot of node_counts: %s' % (sh(cls)[:50], m), key='ACC-6:slots', config=cfg.name)
     res.floor('increment / decrement pairs', 12)
     return res
+
+
+def acc7(cfg):
+    """ACC-7: the per-class statistics accessors read / write the slot of their own class"""
+    res = RuleResult('ACC-7', 'the per-class template accessors of the statistics arrays use the slot of their own node class: get_node_count<T> reads node_counts[T] (five slots, LEAF = 0), get_growing_inode_count<T> / get_shrinking_inode_count<T> read growing_ / shrinking_inode_counts[T - 1] (four slots, inner classes only), and account_growing_inode<T> / account_shrinking_inode<T> write the same slot - a getter that indexes the four-slot arrays with the five-slot index reports the next larger class and reads past the array for I256')
+    if '-stats-' not in cfg.name:
+        return res
+    ENUM = {'LEAF': 0, 'I4': 1, 'I16': 2, 'I48': 3, 'I256': 4}
+    ARR = {'get_node_count': ('node_counts', 0), 'get_growing_inode_count': ('growing_inode_counts', -1), 'get_shrinking_inode_count': ('shrinking_inode_counts', -1),
+           'account_growing_inode': ('growing_inode_counts', -1), 'account_shrinking_inode': ('shrinking_inode_counts', -1)}
+    n = 0
+    for f in cfg.functions:
+        if not f.blocks or f.short not in ARR or not f.cls.startswith(('unodb::db<', 'unodb::olc_db<')):
+            continue
+        m = re.search(r'<unodb::node_type::(\w+)>', f.name)
+        if not m or m.group(1) not in ENUM:
+            continue
+        v = ENUM[m.group(1)]
+        arr, off = ARR[f.short]
+        acc = []
+        for b, i, e in f.elements():
+            if is_assert_elem(e):
+                continue
+            base = idx = None
+            if e.get('k') == 'call' and e.get('ck') == 'op' and e.get('op') == '[]' and len(e.get('args', [])) == 2:
+                base, idx = e['args']
+            elif e.get('k') == 'index':
+                base, idx = e['base'], e['idx']
+            if base is None:
+                continue
+            bn = lval_sig_deep(f, base) or ''
+            x = f.strip_casts(idx)
+            k = x.get('cv', x.get('v')) if isinstance(x, dict) else None
+            acc.append((bn.split('.')[-1], None if k is None else int(k), e.get('loc')))
+        n += 1
+        res.functions.add(f.sig)
+        ok = len(acc) >= 1 and all(a == arr and k == v + off for a, k, loc in acc)
+        res.ob(ok, {'rule': 'ACC-7', 'function': '%s::%s<%s>' % ('olc_db' if 'olc_db' in f.cls else 'db', f.short, m.group(1)), 'accesses': [(a, k) for a, k, loc in acc], 'required': (arr, v + off), 'verdict': 'discharged' if ok else 'VIOLATION'} if n < 120 else None)
+        if not ok:
+            res.find(f, acc[0][2] if acc else f.loc, '%s<%s> uses %s, its own slot is %s[%d]: the statistics reported for a node class are those of another class (or of memory past the array) - reported inner nodes per size class no longer describe the tree' % (f.short, m.group(1), ['%s[%s]' % (a, k) for a, k, loc in acc] or 'no array slot', arr, v + off), key='ACC-7:%s:%s' % (f.short, m.group(1)), config=cfg.name)
+    res.count('per-class statistics accessors', n)
+    res.floor('per-class statistics accessors', 40)
+    return res
